@@ -267,6 +267,12 @@ func (d *Dispatcher) AddPeer(
 func (d *Dispatcher) addPeer(
 	peerID core.PeerID, isPeerOrigin bool, b *bitset.BitSet, messages Messages) (*peer, error) {
 
+	// The bitfield comes from the remote peer's handshake.
+	if int(b.Len()) != d.torrent.NumPieces() {
+		return nil, fmt.Errorf(
+			"bitfield has %d bits, torrent has %d pieces", b.Len(), d.torrent.NumPieces())
+	}
+
 	pstats := &peerStats{}
 	if s, ok := d.peerStats.LoadOrStore(peerID, pstats); ok {
 		ps, ok := s.(*peerStats)
